@@ -2,6 +2,7 @@ package doublesign
 
 import (
 	"errors"
+	"math"
 	"time"
 )
 
@@ -35,6 +36,10 @@ type maxWaitError struct {
 }
 
 func (m *maxWaitError) apply(wait time.Duration, waitErr error) {
+	if wait <= 0 {
+		// the remaining time is always positive here, so it has overflowed (timestamp is far in the future)
+		wait = math.MaxInt64
+	}
 	if m.wait < wait {
 		m.wait = wait
 		m.waitErr = waitErr
